@@ -6,4 +6,4 @@ import PydjinniModel.Props.C03Text
 import PydjinniModel.Props.C03Pos
 import PydjinniModel.Props.C03Sound
 import PydjinniModel.Props.C03Span
-/-! All C03 theorems (target sets, comments, lexer progress/termination/positions/reconstruction; parse ∘ print round trip for types/fields (C03Parse) and for whole declarations, namespaces and files (C03Decl); text level: every admissible layout of well-formed tokens lexes/parses back (C03Text); token start positions increase strictly and the reference positions of every accepted text are pairwise distinct — H4 of C05Program derived (C03Pos); parse → print soundness for interfaces, named functions, error domains, namespaces and whole files, `parseFile_iff_print`, `parseText_iff_render` (C03Sound)). -/
+/-! All C03 theorems (target sets, comments, lexer progress/termination/positions/reconstruction; parse ∘ print round trip for types/fields (C03Parse) and for whole declarations, namespaces and files (C03Decl); text level: every admissible layout of well-formed tokens lexes/parses back (C03Text); token start positions increase strictly and the reference positions of every accepted text are pairwise distinct — H4 of C05Program derived (C03Pos); parse → print soundness for interfaces, named functions, error domains, namespaces and whole files, `parseFile_iff_print`, `parseText_iff_render` (C03Sound); every recorded position is the span of exactly the consumed tokens and positions nest like the constructs, down to generic arguments and up to whole files, also in terms of the source text (C03Span)). -/
